@@ -8,7 +8,7 @@ import ast
 from ..classify import SAME
 from ..engine import Ctx, Finding, RuleResult, cfg_str, trace_of
 from ..loader import AnalysisError, dotted_name
-from ..terms import EV, EVITEM, EVKEY, show, subterms
+from ..terms import EV, EVERROR, EVITEM, EVKEY, show, subterms
 from .common import Emission, emissions, mk_finding, mux_emissions, summary
 from .lv import _is_notset
 
@@ -508,6 +508,190 @@ def _is_private_marker(ctx, m, t):
 
 
 # ----------------------------------------------------------------------
+def rule_ag3_map_filter(ctx: Ctx) -> RuleResult:
+    """The multiplexed map / filter do with the user function what rx.operators.map / filter (the plain arms) do:
+    apply it to the item; map emits its result in place of the item, filter keeps the item iff the result is truthy."""
+    r = RuleResult("AG-3m", "map / filter on a MuxObservable use the user function as rx.operators.map / filter do (applied to the item; filter keeps truthy results)")
+    for rel, suffix, what in (("rxsci/operators/map.py", "map_mux._map.on_subscribe", "map"),
+                              ("rxsci/operators/filter.py", "filter_mux._filter.on_subscribe", "filter")):
+        site = ctx.site(rel, suffix, kind="mux")
+        spec = site.handler_specs("on_next")[0]
+        r.instances += 1
+        for kind, cfg, paths in ctx.all_paths(spec, kinds=("Next",)):
+            for p in paths:
+                r.paths += 1
+                if not _normal(p):
+                    continue
+                r.groups.add((what, len(r.groups)))
+                uc = [e for e in p.trace if e.k == "ucall"]
+                ok = len(uc) == 1 and tuple(uc[0].args) == (EVITEM,)
+                r.ob(ok, lambda: mk_finding("AG-3m", spec, kind, cfg, p,
+                                            "%s must apply the user function exactly once to the item (as rx.operators.%s does); calls: %s" % (
+                                                what, what, [e.brief() for e in uc]), extra="argument"))
+                if not ok:
+                    continue
+                res = uc[0].result
+                ems = [m for m in mux_emissions(p)]
+                if what == "map":
+                    ok = len(ems) == 1 and ems[0].event is not None and ems[0].event.kind == "Next" and ems[0].event.keyclass == SAME \
+                        and ems[0].event.payload == res
+                    r.ob(ok, lambda: mk_finding("AG-3m", spec, kind, cfg, p, "map must emit the mapper's result in place of the item, once, for the same key; "
+                                                                              "it does: %s" % summary(p), extra="result"))
+                    continue
+                decs = [e for e in p.trace if e.k == "decision" and any(x == res for x in [e.test] + list(subterms(e.test)))]
+                ok = len(decs) == 1
+                kept = None
+                if ok:
+                    t = decs[0].test
+                    if t == res:
+                        kept = decs[0].outcome
+                    elif t[0] == "call" and t[1] == ("builtin", "bool") and tuple(t[2]) == (res,):
+                        kept = decs[0].outcome
+                    else:
+                        ok = False
+                r.ob(ok, lambda: mk_finding(
+                    "AG-3m", spec, kind, cfg, p,
+                    "filter must keep an item iff the predicate's result is truthy, as rx.operators.filter does on a plain Observable; here the item is "
+                    "kept under the test %s: a predicate that returns a truthy value other than True (1, a non-empty string, a numpy bool) keeps the item on "
+                    "an Observable and drops it on a MuxObservable" % ([show(d.test) for d in decs] or "(no test of the result)"),
+                    node=decs[0].node if decs else None, extra="truthiness"))
+                if ok:
+                    fw = [m for m in ems if m.event is not None and m.event.how == "same"]
+                    good = (len(ems) == 1 and len(fw) == 1) if kept else (not ems)
+                    r.ob(good, lambda: mk_finding("AG-3m", spec, kind, cfg, p, "filter must forward the item unchanged when kept and emit nothing otherwise; "
+                                                                                "it does: %s" % summary(p), extra="forward"))
+    r.require_instances(2)
+    return r
+
+
+def _do_action_roles(ctx, rel="rxsci/operators/do_action.py", public="do_action"):
+    """{parameter of the multiplexed implementation: role}, read from the dispatch of the public operator: the role of
+    a user callback is the position / keyword under which the plain arm hands it to rx.operators.do_action
+    (on_next, on_error, on_completed); a callback the plain arm does not use is 'create' (it has no RxPY counterpart)."""
+    prog = ctx.program
+    m = prog.module(rel)
+    b = m.bindings.get(public)
+    if b is None or b[0] != "def":
+        raise AnalysisError("AG-3d: %s has no function %s" % (rel, public))
+    fn = b[1]
+    ds = [d for d in dispatch_sites(prog, m, fn) if d.mux_call is not None and d.plain_call is not None]
+    if len(ds) != 1:
+        raise AnalysisError("AG-3d: %s::%s: expected one mux/plain dispatch between sibling operator calls, found %d" % (rel, public, len(ds)))
+    d = ds[0]
+    _, _, nb = d.plain_call
+    _, _, na = d.mux_call
+    rx_order = ["next", "error", "completed"]
+    role_of_public = {}
+    for k, a in enumerate(nb.args):
+        if isinstance(a, ast.Name) and k < 3:
+            role_of_public[a.id] = rx_order[k]
+    for kw in nb.keywords:
+        if kw.arg in ("on_next", "on_error", "on_completed") and isinstance(kw.value, ast.Name):
+            role_of_public[kw.value.id] = kw.arg[3:]
+    dn = dotted_name(na.func)
+    ref = prog.resolve_dotted(m, dn) if dn else None
+    if ref is None or ref[0] != "def":
+        raise AnalysisError("AG-3d: %s: cannot resolve the multiplexed implementation %s" % (m.where(na), ast.unparse(na.func)))
+    callee = ref[2]
+    pos = [a.arg for a in callee.args.args]
+    given = {}
+    for k, a in enumerate(na.args):
+        if k < len(pos):
+            given[pos[k]] = a
+    for kw in na.keywords:
+        if kw.arg:
+            given[kw.arg] = kw.value
+    roles = {}
+    for prm, a in given.items():
+        if isinstance(a, ast.Name):
+            roles[prm] = role_of_public.get(a.id, "create")
+    if sorted(set(roles.values()) & set(rx_order)) != sorted(rx_order):
+        raise AnalysisError("AG-3d: %s: the three callbacks of rx.operators.do_action do not all reach the multiplexed implementation (%s)" % (
+            m.where(d.node), roles))
+    return roles, ref[1], callee
+
+
+def rule_ag3_do_action(ctx: Ctx) -> RuleResult:
+    """do_action on a MuxObservable runs the user callbacks as rx.operators.do_action does on each key's sequence:
+    on_next(item) for every item, on_error(error) / on_completed for the end of a key, each exactly once, before the event
+    is forwarded unchanged; a callback is never run for an event of another kind."""
+    r = RuleResult("AG-3d", "do_action on a MuxObservable runs each callback exactly once for the events of its kind (on_next on the item, on_error on "
+                            "the error), before forwarding the event unchanged, as rx.operators.do_action does per sequence")
+    roles, cm, callee = _do_action_roles(ctx)
+    site = ctx.site(cm.relpath, callee.name + "._do_action_mux.on_subscribe", kind="mux")
+    spec = site.handler_specs("on_next")[0]
+    r.instances += 1
+    want = {"Next": "next", "Error": "error", "Completed": "completed", "Create": "create"}
+    argspec = {"next": EVITEM, "error": EVERROR}
+    prm_of = {}
+    for prm, role in roles.items():
+        prm_of.setdefault(role, prm)
+    for kind, cfg, paths in ctx.all_paths(spec, kinds=("Create", "Next", "Completed", "Error")):
+        for p in paths:
+            r.paths += 1
+            if not _normal(p):
+                continue
+            role = want[kind]
+            prm = prm_of.get(role)
+            # a callback the handler never tests is taken as given (a handler that does not mention it never runs it)
+            configured = prm is not None and cfg.get(prm, "Obj") == "Obj"
+            uc = [e for e in p.trace if e.k == "ucall"]
+            mine = [e for e in uc if roles.get(e.name) == role]
+            other = [e for e in uc if roles.get(e.name) != role]
+            r.groups.add((kind, role))
+            r.ob(not other, lambda: mk_finding("AG-3d", spec, kind, cfg, p, "a callback of another event kind runs on a %s event: %s" % (
+                kind, [e.brief() for e in other]), extra="foreign"))
+            ok = len(mine) == (1 if configured else 0)
+            r.ob(ok, lambda: mk_finding("AG-3d", spec, kind, cfg, p, "the %s callback must run exactly once per %s event when it is given (and only then); "
+                                                                      "calls: %s" % (role, kind, [e.brief() for e in mine] or "none"), extra="once"))
+            if ok and mine and role in argspec:
+                good = tuple(mine[0].args) == (argspec[role],)
+                r.ob(good, lambda: mk_finding("AG-3d", spec, kind, cfg, p, "the %s callback must receive the %s of the event (rx.operators.do_action "
+                                                                            "passes it the %s); it receives %s" % (
+                                                                                role, "item" if role == "next" else "error", "item" if role == "next" else "error",
+                                                                                [show(a) for a in mine[0].args]), extra="argument"))
+            if ok and mine and role in ("completed", "create"):
+                good = EV not in tuple(mine[0].args)
+                r.ob(good, lambda: mk_finding("AG-3d", spec, kind, cfg, p, "the %s callback receives the mux event itself" % role, extra="argument"))
+            ems = [m for m in mux_emissions(p)]
+            fw = [m for m in ems if m.event is not None and m.event.how == "same"]
+            good = len(ems) == 1 and len(fw) == 1
+            r.ob(good, lambda: mk_finding("AG-3d", spec, kind, cfg, p, "do_action must forward every event unchanged, once; it does: %s" % summary(p),
+                                          extra="forward"))
+            if good and mine:
+                order = [e for e in p.trace if e is mine[0] or e is fw[0].eff]
+                r.ob(order and order[0] is mine[0], lambda: mk_finding(
+                    "AG-3d", spec, kind, cfg, p, "the callback must run before the event is forwarded (rx.operators.do_action runs the action first)",
+                    extra="order"))
+    # end of the whole multiplexed stream (not part of any key's sequence): no callback of another kind, none twice
+    for which, role, term in (("on_completed", "completed", "on_completed"), ("on_error", "error", "on_error")):
+        specs = site.handler_specs(which)
+        if not specs:
+            continue      # the terminal is the downstream observer's own method: nothing added (MX-8 / MX-2)
+        hs = specs[0]
+        prm = prm_of.get(role)
+        for cfg in _vals(ctx, hs):
+            for p in ctx.paths(hs, None, cfg):
+                r.paths += 1
+                if not _normal(p):
+                    continue
+                uc = [e for e in p.trace if e.k == "ucall"]
+                mine = [e for e in uc if roles.get(e.name) == role]
+                other = [e for e in uc if roles.get(e.name) != role]
+                configured = prm is not None and cfg.get(prm, "Obj") == "Obj"
+                r.groups.add((which, role))
+                r.ob(not other and len(mine) <= (1 if configured else 0), lambda: mk_finding(
+                    "AG-3d", hs, None, cfg, p, "at the end of the stream only the %s callback may run, at most once and only when it is given; calls: %s" % (
+                        role, [e.brief() for e in uc] or "none"), extra="stream-" + role))
+    r.require_instances(1)
+    return r
+
+
+def _vals(ctx, spec):
+    from ..model import valuations
+    return list(valuations(ctx.space(spec)))
+
+
 MATH_OPS = [
     ("rxsci/math/sum.py", "sum", "scan"), ("rxsci/math/mean.py", "mean", "scan"), ("rxsci/math/min.py", "min", "scan"),
     ("rxsci/math/max.py", "max", "scan"), ("rxsci/math/variance.py", "variance", "scan"),
